@@ -52,6 +52,31 @@ def parseOut (s : String) : Option (List String) :=
   else if s.startsWith "R " then some ((s.drop 2).toString.splitOn ",")
   else none
 
+/-- the Check-side reading of the ListUsers rules for subject `u` (same definition as `proj` / `specSys` of
+`Proofs/ListUsersSem.lean`, repeated here because drivers do not import proof modules): the specification
+the theorems of C06 are stated against.  The driver evaluates it with the proven-sound evaluator of
+`Model/Dfs.lean` and compares it, subject by subject, with the reference oracle of C01 (`idealSys`) — the
+executable form of the bridge between the two specifications. -/
+def projD (wk : String) (u : String) (cw : Bool) : LExpr ListUsers.Node String → BoolSys.Expr ListUsers.Node
+  | .send ks => .lit (if ks.contains u || (cw && ks.contains wk) then .tt else .ff)
+  | .fail => .lit .err
+  | .note _ => .lit .ff
+  | .node n => .node true n
+  | .bag _ es => .or (es.map (projD wk u cw))
+  | .union es => .or (es.map (projD wk u cw))
+  | .inter es => .and (es.map (projD wk u cw))
+  | .diff b s => .diff (projD wk u cw b) (projD wk u cw s)
+
+def specClass (w : World) (f : Filter) (u : String) : String :=
+  let sys := luSys w f
+  let cw := !isUserset u && !isTypedWildcard u
+  let sp : BoolSys.Sys ListUsers.Node := { rule := fun n => projD sys.wk u cw (sys.rule n) }
+  match Dfs.evalF sp bigDepth { ideal := true } Dfs.noCache 6000 0 [] (.node false (w.req.obj, w.req.rel)) with
+  | .ok true _ false => "T"
+  | .ok false _ false => "F"
+  | .err .cond => "U"
+  | _ => "?"
+
 /-- the reference answer for one subject -/
 def refClass (w : World) (u : String) : String :=
   oracleClass { w with aux := [], req := { w.req with user := u } }
@@ -130,6 +155,17 @@ def step (c impl : String) : String :=
     let allowed := (renderAnswer a1 ++ renderAnswer a2).eraseDups
     let clashy := notes.contains "status-clash"
     let modelErr := !(a1.errs ++ a2.errs).isEmpty
+    -- 0. the two specifications agree on every subject in sight (matching the filter: the property is
+    -- about those; LU-D entries are judged by the filter test)
+    let subjects := ((subjects w f) ++ (outs.flatMap (fun o => (parseOut o).getD [])).filter (matchesFilter f)).eraseDups
+    let bridge := if !cs.stratified then none else
+      subjects.findSome? (fun u =>
+        let a := specClass w f u
+        let b := refClass w u
+        if (a = "T" || a = "F") && (b = "T" || b = "F") && a ≠ b then some s!"spec-bridge {u}: ListUsers-side spec={a} Check-side reference={b}" else none)
+    match bridge with
+    | some why => modelDiff why
+    | none =>
     let exact := outs.all (fun o => allowed.contains o)
     let conforms := exact || clashy
     -- 2. the property
